@@ -1,5 +1,6 @@
 //! vkit: verification kit for scylla-rust-driver (property-based testing and fuzzing).
 pub mod alloc;
+pub mod carriers;
 pub mod checks;
 pub mod e2e;
 pub mod gen_frames;
